@@ -26,7 +26,7 @@ def rand_single(rng, m, kmax=3):
         r = int(rng.integers(0, m))
         p = int(rng.integers(0, m - 1))
         p = p if p < r else p + 1
-        out.append([r, p, float(rng.uniform(0.1, 3.0))])
+        out.append([r, p, float(rng.uniform(0.1, 3.0)) if rng.random() < 0.7 else float(10 ** rng.uniform(-4, 3))])
     return out
 
 
@@ -42,7 +42,7 @@ def rand_two(rng, m1, m2, kmax=3):
                 p2 = (r2 + 1) % m2
             else:
                 continue
-        out.append([r1, p1, r2, p2, float(rng.uniform(0.1, 3.0))])
+        out.append([r1, p1, r2, p2, float(rng.uniform(0.1, 3.0)) if rng.random() < 0.7 else float(10 ** rng.uniform(-4, 3))])
     return out
 
 
@@ -74,6 +74,10 @@ def w_slim(ctx, rng, idx):
                 two[int(rng.integers(0, len(two)))] = rand_two(rng, m0, m0)
     thr = [0, 1e-12][int(rng.integers(0, 2))]
     ctx.describe({'op': 'slim_mme', 'state_space': ss, 'cyclic': cyc, 'threshold': thr, 'single': single, 'two': two})
+    if rng.random() < 0.25:
+        # a reduced model of the same system is built first with a coarse threshold (truncation effective: nothing is asserted on
+        # it), then the exact one: what the coarse run leaves behind must not leak into the exact operator
+        call('slim.slim_mme', slim.slim_mme, ss, single, two, prop=P, tags=['coarse_threshold_first'], threshold=float(10 ** rng.uniform(-3, -0.5)))
     call('slim.slim_mme', slim.slim_mme, ss, single, two, prop=P, tags=['cyclic' if cyc else 'open'], threshold=thr)
     if rng.random() < 0.3:  # the same list objects again: other threshold, and the chain opened / closed by its owner
         call('slim.slim_mme', slim.slim_mme, ss, single, two, prop=P, tags=['cyclic' if cyc else 'open', 'second_call'], threshold=1e-12 if thr == 0 else 0)
@@ -97,6 +101,8 @@ def w_slim_hom(ctx, rng, idx):
     two = rand_two(rng, m, m)
     thr = [0, 1e-12][int(rng.integers(0, 2))]
     ctx.describe({'op': 'slim_mme_hom', 'state_space': ss, 'cyclic': cyc, 'threshold': thr, 'single': single, 'two': two})
+    if rng.random() < 0.25:
+        call('slim.slim_mme_hom', slim.slim_mme_hom, ss, single, two, prop=P, tags=['coarse_threshold_first'], cyclic=cyc, threshold=float(10 ** rng.uniform(-3, -0.5)))
     call('slim.slim_mme_hom', slim.slim_mme_hom, ss, single, two, prop=P, tags=['cyclic' if cyc else 'open'], cyclic=cyc, threshold=thr)
 
 
